@@ -324,3 +324,21 @@ Fixpoint nrun (x : node) (ls : list nlabel) : node * list (option N) :=
   end.
 
 Definition is_sync_install (l : nlabel) : bool := match l with NSyncInstall _ => true | _ => false end.
+
+(* the same callback with the leader flag raised FIRST (at the top of OnStartedLeading, before parsing and
+   SetCurrentRevision): what C15_flag_after_install would have to hold for if the order in leader.go were
+   different. Only NFlag and NInstall differ from nstep. *)
+Definition nstep_swapped (x : node) (l : nlabel) : node * option N :=
+  match l with
+  | NFlag => match n_pc x with CbIdle => (mkNode CbIdle (n_lead x) true (n_pending x), None) | _ => (x, None) end
+  | NInstall => match n_pc x with
+                | CbParsed v => (mkNode (CbLeading v) (set_current (n_lead x) v) (n_flag x) (n_pending x), None)
+                | _ => (x, None)
+                end
+  | _ => nstep x l
+  end.
+Fixpoint nrun_swapped (x : node) (ls : list nlabel) : node * list (option N) :=
+  match ls with
+  | [] => (x, [])
+  | l :: tl => let '(x1, o) := nstep_swapped x l in let '(x2, os) := nrun_swapped x1 tl in (x2, o :: os)
+  end.
